@@ -25,11 +25,13 @@ import (
 
 	"github.com/ucan-wg/go-ucan/did"
 	"github.com/ucan-wg/go-ucan/pkg/args"
+	"github.com/ucan-wg/go-ucan/pkg/container"
 	"github.com/ucan-wg/go-ucan/pkg/meta"
 	"github.com/ucan-wg/go-ucan/pkg/policy"
 	"github.com/ucan-wg/go-ucan/pkg/policy/literal"
 	"github.com/ucan-wg/go-ucan/token/delegation"
 	"github.com/ucan-wg/go-ucan/token/invocation"
+	verifclock "github.com/ucan-wg/go-ucan/verifshim/clock"
 
 	"verifharness/fixtures"
 )
@@ -78,6 +80,11 @@ type Fixture struct {
 	// sequences obtained ONCE from the shared tokens and kept: ranging over such a value is a read-only
 	// operation like any other, however often and from however many goroutines it is done
 	ArgsSeq, MetaSeq, DlgMetaSeq iter.Seq2[string, datamodel.Node]
+	// a container.Reader holding the two delegations in sealed form, shared as delegation.Loader, with an
+	// invocation that names them by their CIDs and one that names them by other CIDs of the same digest
+	Ctn              container.Reader
+	CtnInv, AliasInv *invocation.Token
+	AliasCid         cid.Cid
 }
 
 func synthCid(label string) cid.Cid {
@@ -117,6 +124,10 @@ func secretCiphertext(v Variant) []byte {
 
 // NewFixture builds a fresh, equal set of tokens for a variant.
 func NewFixture(v Variant) *Fixture {
+	// the tokens are built under a clock that reads 1999 (for this goroutine only; build overlay seam), so that
+	// not-before bounds in 2000 / 2001 pass the constructors' "must lie in the future" test and are fixed values
+	restore := verifclock.InstallLocal(func() time.Time { return time.Date(1999, 1, 1, 0, 0, 0, 0, time.UTC) })
+	defer restore()
 	ks := fixtures.ByAlg("ed25519")
 	root, mid, leaf := ks[0], ks[1], ks[2]
 	vals := map[string]int{"a": 1, "b": 2, "c": 3, "aaa": 1, "bb": 2, "headers": 7, "uri": 8}
@@ -132,10 +143,12 @@ func NewFixture(v Variant) *Fixture {
 		policy.And(policy.All(".l?", policy.GreaterThan(".", literal.Int(0))), policy.Not(policy.Like(".s?", "x*")), policy.LessThan(".a?", literal.Int(9)))))
 	// (a negative slice bound: resolving it against lists of different lengths must not rebase the parsed selector)
 	pol1 := withSpare(policy.MustConstruct(policy.LessThanOrEqual(".c?", literal.Int(3)), policy.Any(".l?[-2:]", policy.GreaterThan(".", literal.Int(0))), policy.Equal(".l?[-1]", literal.Int(3))))
-	mk := func(iss, aud *fixtures.Key, pol policy.Policy) *delegation.Token {
+	mk := func(iss, aud *fixtures.Key, pol policy.Policy, nbf time.Time) *delegation.Token {
 		// (a fixed expiration far in the future, with a sub-second fraction: the wire format is second-granular,
 		// so encoding must truncate a copy, never the token's own value)
-		opts := []delegation.Option{delegation.WithSubject(root.DID), delegation.WithNonce(fixedNonce), delegation.WithExpiration(time.Date(2200, 1, 1, 0, 0, 0, 250_000_000, time.UTC))}
+		// (both delegations carry a not-before bound, the root's later than the leaf's: a check that computes the
+		// window of the whole chain must not write it back into the tokens)
+		opts := []delegation.Option{delegation.WithSubject(root.DID), delegation.WithNonce(fixedNonce), delegation.WithExpiration(time.Date(2200, 1, 1, 0, 0, 0, 250_000_000, time.UTC)), delegation.WithNotBefore(nbf)}
 		for _, k := range v.Keys {
 			opts = append(opts, delegation.WithMeta(k, "m-"+k))
 		}
@@ -145,8 +158,8 @@ func NewFixture(v Variant) *Fixture {
 		}
 		return d
 	}
-	d1 := mk(root, mid, pol1) // root
-	d0 := mk(mid, leaf, pol0) // leaf
+	d1 := mk(root, mid, pol1, time.Date(2001, 1, 1, 0, 0, 0, 0, time.UTC)) // root
+	d0 := mk(mid, leaf, pol0, time.Date(2000, 1, 1, 0, 0, 0, 0, time.UTC)) // leaf
 	f := &Fixture{InvKey: leaf, DlgKey: []*fixtures.Key{mid, root}}
 	f.Dlgs = []*delegation.Token{d0, d1}
 	if v.Decoded {
@@ -184,6 +197,40 @@ func NewFixture(v Variant) *Fixture {
 	}
 	f.Inv = inv
 	f.ArgsSeq, f.MetaSeq, f.DlgMetaSeq = inv.Arguments().Iter(), inv.Meta().Iter(), f.Dlgs[0].Meta().Iter()
+	var real, alias []cid.Cid
+	var car []byte
+	if c, ok := ctnCache.Load(v.String()); ok {
+		cc := c.(ctnCached)
+		car, real, alias = cc.car, cc.real, cc.alias
+	} else {
+		w := container.NewWriter()
+		for i, d := range []*delegation.Token{d0, d1} {
+			b, c, err := d.ToSealed(f.DlgKey[i].Priv)
+			if err != nil {
+				panic(err)
+			}
+			w.AddSealed(c, b)
+			real = append(real, c)
+			alias = append(alias, cid.NewCidV1(cid.Raw, c.Hash()))
+		}
+		var cerr error
+		if car, cerr = w.ToCar(); cerr != nil {
+			panic(cerr)
+		}
+		ctnCache.Store(v.String(), ctnCached{car, real, alias})
+	}
+	if f.Ctn, err = container.FromCar(car); err != nil {
+		panic(err)
+	}
+	f.AliasCid = alias[0]
+	mkInv := func(prf []cid.Cid) *invocation.Token {
+		t, err := invocation.New(leaf.DID, root.DID, "/a", prf, invocation.WithNonce(fixedNonce), invocation.WithoutInvokedAt(), invocation.WithArgument("l", []int{1, 2, 3}))
+		if err != nil {
+			panic(err)
+		}
+		return t
+	}
+	f.CtnInv, f.AliasInv = mkInv(real), mkInv(alias)
 	return f
 }
 
@@ -251,6 +298,14 @@ func rangeKept(seq iter.Seq2[string, datamodel.Node], s Seam) string {
 		r = append(r, k+"="+nodeHex(v))
 	}
 	return strings.Join(r, ",")
+}
+
+// ctnCache keeps the CAR bytes of a variant's two sealed delegations (Ed25519: sealing is deterministic).
+var ctnCache sync.Map
+
+type ctnCached struct {
+	car         []byte
+	real, alias []cid.Cid
 }
 
 type Op struct {
@@ -347,6 +402,19 @@ func Ops() []Op {
 			return strings.Join(r, ",")
 		}},
 		{"inv.Meta.String", func(f *Fixture, s Seam) string { return sortedLines(f.Inv.Meta().String()) }},
+		{"ctnInv.ExecutionAllowed(container.Reader as loader)", func(f *Fixture, s Seam) string { return errStr(f.CtnInv.ExecutionAllowed(f.Ctn)) }},
+		{"aliasInv.ExecutionAllowed(container.Reader as loader; proofs named by raw-codec CIDs)", func(f *Fixture, s Seam) string {
+			return errStr(f.AliasInv.ExecutionAllowed(f.Ctn))
+		}},
+		{"ctn.GetDelegation(raw-codec CID)+GetAllDelegations", func(f *Fixture, s Seam) string {
+			_, err := f.Ctn.GetDelegation(f.AliasCid)
+			var cs []string
+			for c := range f.Ctn.GetAllDelegations() {
+				cs = append(cs, c.String())
+			}
+			sort.Strings(cs)
+			return errStr(err) + strings.Join(cs, ",")
+		}},
 		{"range(kept inv.Arguments.Iter sequence)", func(f *Fixture, s Seam) string { return rangeKept(f.ArgsSeq, s) }},
 		{"range(kept inv.Meta.Iter sequence)", func(f *Fixture, s Seam) string { return rangeKept(f.MetaSeq, s) }},
 		{"range(kept dlg.Meta.Iter sequence)", func(f *Fixture, s Seam) string { return rangeKept(f.DlgMetaSeq, s) }},
